@@ -5,6 +5,12 @@ open Acra.Model.Ch11Pay.TimeFmt
 /-- the BCD helpers invert each other on 0..99: `bcd_to_int(double_digits_to_bcd(v)) = v` -/
 theorem bcd_inverse : ∀ v, v < 100 → bcdToInt (bcd2 v) = v := by decide
 
+/-- … and the other way round (added by the rev2 review; "invert each other"): every byte whose two nibbles are decimal
+    digits is the encoding of the value it decodes to -/
+theorem bcd_inverse_conv : ∀ b, b < 256 → b % 16 < 10 → b / 16 < 10 → bcd2 (bcdToInt b) = b ∧ bcdToInt b < 100 := by decide +kernel
+
+example : (0x59 : Nat) < 256 ∧ 0x59 % 16 < 10 ∧ 0x59 / 16 < 10 ∧ bcdToInt 0x59 = 59 ∧ bcd2 59 = 0x59 := by decide
+
 /-- `double_digits_to_bcd` puts the tens digit in the high nibble and the units digit in the low one -/
 theorem bcd_layout (v : Nat) (h : v < 100) : bcd2 v = 16 * (v / 10) + v % 10 := by
   unfold bcd2; omega
